@@ -25,6 +25,7 @@ package transform
 //@ end
 
 //@ func convertZToMinAltitudekey
+//@   quickstride 4
 //@   props C12 C05
 //@   split inputZoom 0..35
 //@   split outputZoom 0..35
@@ -36,6 +37,7 @@ package transform
 //@ end
 
 //@ func convertZToMaxAltitudekey
+//@   quickstride 4
 //@   props C12 C05
 //@   split inputZoom 0..35
 //@   split outputZoom 0..35
@@ -48,6 +50,7 @@ package transform
 //@ end
 
 //@ func ConvertZToMinMaxAltitudekey
+//@   quickstride 4
 //@   props C12 C05
 //@   split inputZoom 0..35
 //@   split outputZoom 0..35
@@ -73,6 +76,7 @@ package transform
 //@ define wzmax(k, zk, zout, e, off) = fdiv((0 - fdiv(0 - keyB(k, zk, e, off), pow2(35))) * pow2(35) - 1, pow2(60 - zout))
 
 //@ func ConvertAltitudekeyToMinMaxZ
+//@   quickstride 4
 //@   props C12 C13
 //@   split altitudekeyZoomLevel 0..35
 //@   split outputZoom 0..35
@@ -91,6 +95,7 @@ package transform
 //@ -- C12, last clause: in the exact regime the two directions are mutually consistent.
 //@ lemma C12_directions_consistent
 //@   props C12
+//@   quickstride 4
 //@   var f int
 //@   var zf int
 //@   var k int
@@ -105,4 +110,102 @@ package transform
 //@   call zmn, zmx, e2 := ConvertAltitudekeyToMinMaxZ(k, zk, zf, e, off)
 //@   assume e1 == nil && e2 == nil
 //@   assert (mn <= k && k <= mx) <==> (zmn <= f && f <= zmx)
+//@ end
+
+//@ -- C15 sweep (no panic, error behaviour) for the exported conversions
+//@ func GetVoxelIDfromSpatialID
+//@   props C10 C15
+//@   nooverflow
+//@   ensures [components] nf(spatialID) == 5 && isnum(fld(spatialID, 1)) && isnum(fld(spatialID, 2)) && isnum(fld(spatialID, 4)) ==> len(r0) == 3 && r0[0] == val(fld(spatialID, 1)) && r0[1] == val(fld(spatialID, 2)) && r0[2] == val(fld(spatialID, 4))
+//@   ensures [malformed] nf(spatialID) != 5 ==> len(r0) == 0
+//@ end
+
+//@ func quadkeyCheckZoom
+//@   props C11 C15
+//@   ensures r0 <==> (1 <= hZoom && hZoom <= 31 && 0 <= vZoom && vZoom <= 35)
+//@ end
+
+//@ func extendedSpatialIDCheckZoom
+//@   props C11 C13 C15
+//@   ensures r0 <==> (0 <= hZoom && hZoom <= 35 && 0 <= vZoom && vZoom <= 35)
+//@ end
+
+//@ func deleteDuplicationList
+//@   props C11 C16
+//@   ensures nodup(r0)
+//@   ensures forall e: str :: in(e, r0) <==> in(e, duplicationList)
+//@   loop 0 invariant forall e: str :: has(mList, e) <==> (exists k :: 0 <= k && k < $i && duplicationList[k] == e)
+//@   loop 1 invariant len(returnList) == $n && (forall k :: 0 <= k && k < $n ==> returnList[k] == $key(k))
+//@ end
+
+//@ func ConvertSpatialIDsToQuadkeysAndVerticalIDs
+//@   props C15
+//@   nooverflow
+//@ end
+
+//@ func ConvertExtendedSpatialIDsToQuadkeysAndVerticalIDs
+//@   props C15 C11
+//@   nooverflow
+//@ end
+
+//@ -- C11: the quadkey of tile (x, y) at zoom z is the integer whose base-4 digit j is bit_j(x) + 2*bit_j(y).
+//@ -- qpartx(x, i) / qparty(y, i): the contribution of the low i bits (generated: 31 explicit terms each).
+//@ define qpartx(x, i) = ite(0 < i, fmod(fdiv(x, pow2(0)), 2) * pow2(0), 0) + ite(1 < i, fmod(fdiv(x, pow2(1)), 2) * pow2(2), 0) + ite(2 < i, fmod(fdiv(x, pow2(2)), 2) * pow2(4), 0) + ite(3 < i, fmod(fdiv(x, pow2(3)), 2) * pow2(6), 0) + ite(4 < i, fmod(fdiv(x, pow2(4)), 2) * pow2(8), 0) + ite(5 < i, fmod(fdiv(x, pow2(5)), 2) * pow2(10), 0) + ite(6 < i, fmod(fdiv(x, pow2(6)), 2) * pow2(12), 0) + ite(7 < i, fmod(fdiv(x, pow2(7)), 2) * pow2(14), 0) + ite(8 < i, fmod(fdiv(x, pow2(8)), 2) * pow2(16), 0) + ite(9 < i, fmod(fdiv(x, pow2(9)), 2) * pow2(18), 0) + ite(10 < i, fmod(fdiv(x, pow2(10)), 2) * pow2(20), 0) + ite(11 < i, fmod(fdiv(x, pow2(11)), 2) * pow2(22), 0) + ite(12 < i, fmod(fdiv(x, pow2(12)), 2) * pow2(24), 0) + ite(13 < i, fmod(fdiv(x, pow2(13)), 2) * pow2(26), 0) + ite(14 < i, fmod(fdiv(x, pow2(14)), 2) * pow2(28), 0) + ite(15 < i, fmod(fdiv(x, pow2(15)), 2) * pow2(30), 0) + ite(16 < i, fmod(fdiv(x, pow2(16)), 2) * pow2(32), 0) + ite(17 < i, fmod(fdiv(x, pow2(17)), 2) * pow2(34), 0) + ite(18 < i, fmod(fdiv(x, pow2(18)), 2) * pow2(36), 0) + ite(19 < i, fmod(fdiv(x, pow2(19)), 2) * pow2(38), 0) + ite(20 < i, fmod(fdiv(x, pow2(20)), 2) * pow2(40), 0) + ite(21 < i, fmod(fdiv(x, pow2(21)), 2) * pow2(42), 0) + ite(22 < i, fmod(fdiv(x, pow2(22)), 2) * pow2(44), 0) + ite(23 < i, fmod(fdiv(x, pow2(23)), 2) * pow2(46), 0) + ite(24 < i, fmod(fdiv(x, pow2(24)), 2) * pow2(48), 0) + ite(25 < i, fmod(fdiv(x, pow2(25)), 2) * pow2(50), 0) + ite(26 < i, fmod(fdiv(x, pow2(26)), 2) * pow2(52), 0) + ite(27 < i, fmod(fdiv(x, pow2(27)), 2) * pow2(54), 0) + ite(28 < i, fmod(fdiv(x, pow2(28)), 2) * pow2(56), 0) + ite(29 < i, fmod(fdiv(x, pow2(29)), 2) * pow2(58), 0) + ite(30 < i, fmod(fdiv(x, pow2(30)), 2) * pow2(60), 0)
+//@ define qparty(y, i) = ite(0 < i, 2 * fmod(fdiv(y, pow2(0)), 2) * pow2(0), 0) + ite(1 < i, 2 * fmod(fdiv(y, pow2(1)), 2) * pow2(2), 0) + ite(2 < i, 2 * fmod(fdiv(y, pow2(2)), 2) * pow2(4), 0) + ite(3 < i, 2 * fmod(fdiv(y, pow2(3)), 2) * pow2(6), 0) + ite(4 < i, 2 * fmod(fdiv(y, pow2(4)), 2) * pow2(8), 0) + ite(5 < i, 2 * fmod(fdiv(y, pow2(5)), 2) * pow2(10), 0) + ite(6 < i, 2 * fmod(fdiv(y, pow2(6)), 2) * pow2(12), 0) + ite(7 < i, 2 * fmod(fdiv(y, pow2(7)), 2) * pow2(14), 0) + ite(8 < i, 2 * fmod(fdiv(y, pow2(8)), 2) * pow2(16), 0) + ite(9 < i, 2 * fmod(fdiv(y, pow2(9)), 2) * pow2(18), 0) + ite(10 < i, 2 * fmod(fdiv(y, pow2(10)), 2) * pow2(20), 0) + ite(11 < i, 2 * fmod(fdiv(y, pow2(11)), 2) * pow2(22), 0) + ite(12 < i, 2 * fmod(fdiv(y, pow2(12)), 2) * pow2(24), 0) + ite(13 < i, 2 * fmod(fdiv(y, pow2(13)), 2) * pow2(26), 0) + ite(14 < i, 2 * fmod(fdiv(y, pow2(14)), 2) * pow2(28), 0) + ite(15 < i, 2 * fmod(fdiv(y, pow2(15)), 2) * pow2(30), 0) + ite(16 < i, 2 * fmod(fdiv(y, pow2(16)), 2) * pow2(32), 0) + ite(17 < i, 2 * fmod(fdiv(y, pow2(17)), 2) * pow2(34), 0) + ite(18 < i, 2 * fmod(fdiv(y, pow2(18)), 2) * pow2(36), 0) + ite(19 < i, 2 * fmod(fdiv(y, pow2(19)), 2) * pow2(38), 0) + ite(20 < i, 2 * fmod(fdiv(y, pow2(20)), 2) * pow2(40), 0) + ite(21 < i, 2 * fmod(fdiv(y, pow2(21)), 2) * pow2(42), 0) + ite(22 < i, 2 * fmod(fdiv(y, pow2(22)), 2) * pow2(44), 0) + ite(23 < i, 2 * fmod(fdiv(y, pow2(23)), 2) * pow2(46), 0) + ite(24 < i, 2 * fmod(fdiv(y, pow2(24)), 2) * pow2(48), 0) + ite(25 < i, 2 * fmod(fdiv(y, pow2(25)), 2) * pow2(50), 0) + ite(26 < i, 2 * fmod(fdiv(y, pow2(26)), 2) * pow2(52), 0) + ite(27 < i, 2 * fmod(fdiv(y, pow2(27)), 2) * pow2(54), 0) + ite(28 < i, 2 * fmod(fdiv(y, pow2(28)), 2) * pow2(56), 0) + ite(29 < i, 2 * fmod(fdiv(y, pow2(29)), 2) * pow2(58), 0) + ite(30 < i, 2 * fmod(fdiv(y, pow2(30)), 2) * pow2(60), 0)
+//@ define qkey(x, y, z) = qpartx(x, z) + qparty(y, z)
+
+//@ func convertHorizontalIDToQuadkey
+//@   props C11 C15
+//@   nooverflow
+//@   requires nf(horizontalID) == 3
+//@   loop 0 invariant 0 <= i
+//@   loop 1 invariant 0 <= i
+//@ end
+//@ -- canonical case: zoom and loop counter are case-split, so every step is a small linear fact
+//@ case convertHorizontalIDToQuadkey canonical
+//@   shape horizontalID hid gz gx gy
+//@   split gz 1..31
+//@   split i 0..31
+//@   quickstride 8
+//@   requires 0 <= gx && gx < pow2(gz) && 0 <= gy && gy < pow2(gz)
+//@   loop 0 invariant 0 <= i && i <= gz && xIndexTmp == fdiv(gx, pow2(i)) && quadkey == qpartx(gx, i)
+//@   loop 1 invariant 0 <= i && i <= gz && yIndexTmp == fdiv(gy, pow2(i)) && quadkey == qpartx(gx, gz) + qparty(gy, i)
+//@   ensures [interleave] r0 == qkey(gx, gy, gz)
+//@   ensures [range] 0 <= r0 && r0 < pow2(2 * gz)
+//@ end
+
+//@ -- the inverse walk: x collects the even bits of the key, y the odd bits.
+//@ -- qbits(q, s, z): the number whose bit j is bit s+2j of q, for positions below 2z (generated).
+//@ define qbits(q, s, z) = ite(s + 0 < 2 * z, fmod(fdiv(q, pow2(s + 0)), 2) * pow2(0), 0) + ite(s + 2 < 2 * z, fmod(fdiv(q, pow2(s + 2)), 2) * pow2(1), 0) + ite(s + 4 < 2 * z, fmod(fdiv(q, pow2(s + 4)), 2) * pow2(2), 0) + ite(s + 6 < 2 * z, fmod(fdiv(q, pow2(s + 6)), 2) * pow2(3), 0) + ite(s + 8 < 2 * z, fmod(fdiv(q, pow2(s + 8)), 2) * pow2(4), 0) + ite(s + 10 < 2 * z, fmod(fdiv(q, pow2(s + 10)), 2) * pow2(5), 0) + ite(s + 12 < 2 * z, fmod(fdiv(q, pow2(s + 12)), 2) * pow2(6), 0) + ite(s + 14 < 2 * z, fmod(fdiv(q, pow2(s + 14)), 2) * pow2(7), 0) + ite(s + 16 < 2 * z, fmod(fdiv(q, pow2(s + 16)), 2) * pow2(8), 0) + ite(s + 18 < 2 * z, fmod(fdiv(q, pow2(s + 18)), 2) * pow2(9), 0) + ite(s + 20 < 2 * z, fmod(fdiv(q, pow2(s + 20)), 2) * pow2(10), 0) + ite(s + 22 < 2 * z, fmod(fdiv(q, pow2(s + 22)), 2) * pow2(11), 0) + ite(s + 24 < 2 * z, fmod(fdiv(q, pow2(s + 24)), 2) * pow2(12), 0) + ite(s + 26 < 2 * z, fmod(fdiv(q, pow2(s + 26)), 2) * pow2(13), 0) + ite(s + 28 < 2 * z, fmod(fdiv(q, pow2(s + 28)), 2) * pow2(14), 0) + ite(s + 30 < 2 * z, fmod(fdiv(q, pow2(s + 30)), 2) * pow2(15), 0) + ite(s + 32 < 2 * z, fmod(fdiv(q, pow2(s + 32)), 2) * pow2(16), 0) + ite(s + 34 < 2 * z, fmod(fdiv(q, pow2(s + 34)), 2) * pow2(17), 0) + ite(s + 36 < 2 * z, fmod(fdiv(q, pow2(s + 36)), 2) * pow2(18), 0) + ite(s + 38 < 2 * z, fmod(fdiv(q, pow2(s + 38)), 2) * pow2(19), 0) + ite(s + 40 < 2 * z, fmod(fdiv(q, pow2(s + 40)), 2) * pow2(20), 0) + ite(s + 42 < 2 * z, fmod(fdiv(q, pow2(s + 42)), 2) * pow2(21), 0) + ite(s + 44 < 2 * z, fmod(fdiv(q, pow2(s + 44)), 2) * pow2(22), 0) + ite(s + 46 < 2 * z, fmod(fdiv(q, pow2(s + 46)), 2) * pow2(23), 0) + ite(s + 48 < 2 * z, fmod(fdiv(q, pow2(s + 48)), 2) * pow2(24), 0) + ite(s + 50 < 2 * z, fmod(fdiv(q, pow2(s + 50)), 2) * pow2(25), 0) + ite(s + 52 < 2 * z, fmod(fdiv(q, pow2(s + 52)), 2) * pow2(26), 0) + ite(s + 54 < 2 * z, fmod(fdiv(q, pow2(s + 54)), 2) * pow2(27), 0) + ite(s + 56 < 2 * z, fmod(fdiv(q, pow2(s + 56)), 2) * pow2(28), 0) + ite(s + 58 < 2 * z, fmod(fdiv(q, pow2(s + 58)), 2) * pow2(29), 0) + ite(s + 60 < 2 * z, fmod(fdiv(q, pow2(s + 60)), 2) * pow2(30), 0)
+
+//@ func convertQuadkeyToHorizontalID
+//@   props C11 C15
+//@   nooverflow
+//@   requires quadkey >= 0
+//@ end
+//@ -- zoom, digit count and loop index are case-split ($idx is the range index, -1 before the first digit);
+//@ -- a key below 4^zoom has at most zoom digits
+//@ case convertQuadkeyToHorizontalID in-range
+//@   split zoom 1..31
+//@   split $ndigits 1..zoom
+//@   split $idx -1..$ndigits-1
+//@   quickstride 16
+//@   requires 0 <= quadkey && quadkey < pow2(2 * zoom)
+//@   loop 0 invariant $i <= $ndigits && $i <= zoom && x == qbits(quadkey, 2 * ($ndigits - $i), zoom) && y == qbits(quadkey, 2 * ($ndigits - $i) + 1, zoom)
+//@   ensures [deinterleave] r0 == qbits(quadkey, 0, zoom) && r1 == qbits(quadkey, 1, zoom)
+//@   ensures [range] 0 <= r0 && r0 < pow2(zoom) && 0 <= r1 && r1 < pow2(zoom)
+//@ end
+
+//@ -- one-to-one correspondence: the two walks are mutually inverse (arithmetic lemma, per zoom)
+//@ lemma C11_quadkey_bijection
+//@   props C11
+//@   tier thorough
+//@   var z int
+//@   var x int
+//@   var y int
+//@   var q int
+//@   split z 1..31
+//@   assume 0 <= x && x < pow2(z) && 0 <= y && y < pow2(z) && 0 <= q && q < pow2(2 * z)
+//@   assert [xy-key-xy] qbits(qkey(x, y, z), 0, z) == x && qbits(qkey(x, y, z), 1, z) == y
+//@   assert [key-xy-key] qkey(qbits(q, 0, z), qbits(q, 1, z), z) == q
 //@ end
